@@ -56,7 +56,20 @@ fn spline_smoothstep_range() {
     }
 }
 
-// @ob props=C17 tier=quick kind=P cfg=core-std timeout=1800
+// @ob props=C17 tier=quick kind=P cfg=core-std timeout=600
+// @fn smootherstep ; step
+// @clause smootherstep returns exactly 0 for every t <= 0 and exactly 1 for every t >= 1 (the in-between range is a thorough-tier obligation)
+#[cfg(not(verif_skip_spline_smootherstep_ends))]
+#[kani::proof]
+fn spline_smootherstep_ends() {
+    let t: F = kani::any();
+    kani::assume(t <= 0.0 || t >= 1.0);
+    let b = smootherstep(t);
+    kani::cover!(t > 1.0);
+    assert!(b == if t <= 0.0 { 0.0 } else { 1.0 });
+}
+
+// @ob props=C17 tier=thorough kind=P cfg=core-std timeout=7200
 // @fn smootherstep ; step
 // @clause smootherstep returns exactly 0 for t <= 0 and exactly 1 for t >= 1, and a value in [0, 1] up to rounding (1e-5; the Horner form overshoots 1 by 1.07e-6 at t = 0.9996858) for every t in between
 #[cfg(not(verif_skip_spline_smootherstep_range))]
